@@ -6,7 +6,7 @@
    generated request by the correspondence run (oracle c13_holds). *)
 From Coq Require Import List Arith Bool Permutation String ZArith.
 From GW Require Import Base.Res Base.GoStr Base.Json Gql.Syntax Gw.ExecLTS Gw.Points Gw.Locate
-     Gw.Plan Proofs.ExecLTSProofs Proofs.ExecLTSConserve Proofs.CodecProofs Proofs.PointsProofs Proofs.FindProofs Proofs.RouteProofs Proofs.PlanProofs Gw.Plan2 Proofs.Plan2Proofs.
+     Gw.Plan Proofs.ExecLTSProofs Proofs.ExecLTSConserve Proofs.CodecProofs Proofs.PointsProofs Proofs.FindProofs Proofs.RouteProofs Proofs.PlanProofs Gw.Plan2 Proofs.Plan2Proofs Proofs.SingleService.
 Import ListNotations.
 Open Scope string_scope.
 Open Scope list_scope.
@@ -71,3 +71,16 @@ Example C13_nonvacuous :
   exists l, route_sels 3 [] urls [("Query.user", "User")] [] "Query" "A" []
               [Field "user" "user" [] [] [Field "name" "name" [] [] []]] = Ok l /\ map r_loc l = ["A"; "A"].
 Proof. eexists. split; vm_compute; reflexivity. Qed.
+
+(* A query whose fields are all available from the service answering its root fields is planned
+   as ONE step at that service, holding the client's selection unchanged (the gateway's own step
+   sends nothing): for every operation, at every depth and through inline fragments, whenever the
+   chooser places every field at A -- from the gateway at the top and from A below. *)
+Theorem C13_single_service_single_step :
+  forall prios urls ft A, A <> "" ->
+  forall n root s r,
+  Forall (top_at prios urls A root) (s :: r) -> Forall (at1 prios urls ft A n root) (s :: r) ->
+  plan_operation prios urls ft (S (S n)) root (s :: r) =
+  Ok (PStep "" root [] [id_field] [PStep A root [] (s :: r) []]).
+Proof. intros prios urls ft A HA n root s r. exact (single_service_plan prios urls ft A HA n root s r). Qed.
+Print Assumptions C13_single_service_single_step.
